@@ -5,7 +5,7 @@ MODES = {0: "coords_rank", 1: "rank_wrap", 2: "shift", 3: "shift_baddir", 4: "di
 META = {
     "bounds": "1..4 dimensions (quick: 1..3; concrete per query), every dimension size symbolic in 1..4 (quick) / 1..6 (thorough) with product <= 64 nodes, periodicity symbolic, "
               "calling rank / rank / coordinates (|c| <= 3*maxdim) / displacement (|disp| <= 2*maxdim) / given Dims_create entries symbolic; unwind 8 (Dims_create: 12)",
-    "outside": "Dims_create and Cart_sub (harness modes 4 and 5 exist but symbolic execution does not finish in 900 s: std::sort/introsort and vector growth under symbolic factor counts; measured, see DESIGN.md), creation of the communicators (Comm::split, Comm constructor, groups: engine-level collectives), Cart_sub dropping every dimension, graph topologies",
+    "outside": "Dims_create and Cart_sub (harness modes 4 and 5 exist but no verdict in 900 s in merge mode (std::sort/introsort, vector growth under symbolic factor counts) nor in 200 s path by path (the first path already stalls in the div/mod circuits); measured, see DESIGN.md), creation of the communicators (Comm::split, Comm constructor, groups: engine-level collectives), Cart_sub dropping every dimension, graph topologies",
     "stubs": ["smpi::Comm::rank() -> symbolic rank of the caller", "smpi::Comm::split(color,key) records its arguments", "xbt logging -> silent", "abort() = violation"],
     "assumptions": ["the topology object is the one the real Topo_Cart constructor builds for a process of rank me (comm_cart == nullptr path)"],
     "functions_filter": r"Topo_Cart|assignnodes|getfactors",
